@@ -21,6 +21,17 @@ decoders for requests and for produce / metadata responses, and the property-lev
              a retriable error (3, 6, 8) or drops the connection, so the router re-sends the SAME message;
              EVERY buffer the client writes to a connection (metadata requests, first transmissions and
              retries) is recorded as a Hdr / Req record and judged by the same request clauses
+      late   ClientTimeoutSink -> KafkaSerializerSink -> KafkaTransportSink over the real ScalesSocket on the
+             simulated network (harness/simgevent SimNet + KafkaPeer): produce / metadata requests with their own
+             deadlines; the broker holds replies past the client's timeout and releases them later (after further
+             requests were issued), out of order, several in one segment, twice, at the very instant of the
+             deadline, or names an id nobody uses.  Events LReq (the bytes the client wrote for the request; the
+             spec reads the correlation id from them), LReply (the bytes the broker encoded and the wire request
+             they answer), LDone (what the caller was given), LEnd; judged by the KafkaCorrAbs machine inside
+             KafkaWireTrace: a value only from a reply encoded in answer to that very request (per wire request
+             instance, so that a re-used id is judged correctly), nothing after a timeout, nothing lost.
+             KafkaCorr.tla is the code-shaped model of that lifecycle (tag pool / tag map / timeout / late reply)
+             with the same machine in lock-step.
 The response bytes come from the small broker-side encoder below (written from the Kafka protocol guide,
 struct.pack only); they are decoded by the SPEC's decoder inside TLC and compared there with what the real
 code returned.  There is no Python oracle.
@@ -48,13 +59,20 @@ ASSUMPTIONS = [
   '(the decoded result is keyed by them)',
   'correlation ids are the mux tags of the connection ([0, 2^24)); routing is exercised on one connection with up '
   'to 6 requests in flight; socket-level interleavings/faults belong to the transport engine (C02/C08/C11)',
+  'late-reply mode: the broker answers every request it received at most once, at any time and in any order (Kafka '
+  'has no cancel); a duplicate answer is only generated while no newer request exists (afterwards no client could '
+  'tell it from the answer to the new holder of the id); re-using an id is not judged here (C11), only which '
+  'request a reply is handed to; errors other than a value (timeouts) are not constrained by C15',
 ]
 RULE = {'C15': 'records generated from VERIF_SEED: topic (ASCII, empty, non-ASCII bytes, long) x partition (int32 '
                'boundaries + random) x acks {-1,0,1,2} x payload list (empty list, empty payloads, 1-64 byte and '
                '1-4 KiB payloads of arbitrary bytes) x correlation id (byte boundaries + random), plus the bounded model '
                'domain (every list of <= 2 payloads of <= 2 bytes over {0,255}); produce / metadata '
                'responses with 0-3 topics/brokers, 0-3 partitions, error codes incl. -1, int64 offset boundaries; '
-               'routing runs with 2-6 requests in flight and permuted / missing / unknown replies; ~10 records per '
+               'routing runs with 2-6 requests in flight and permuted / missing / unknown replies; late-reply scenarios '
+               '(3-9 produce / metadata requests with deadlines of 50-1000 ms or none on one live connection, replies '
+               'held past the deadline and released after further requests, permuted, batched, duplicated, unknown '
+               'ids, reply and deadline at the same instant with every small interleaving); ~10 records per '
                'trace, one class per trace; every trace is non-trivial except header-only ones; distinct by '
                'canonical record list'}
 
@@ -65,6 +83,18 @@ Z4 = [0, 0, 0, 0]
 
 
 # ------------------------------------------------------------------ model checking
+def _corr_models(cfg, bound):
+  return [
+    dict(module='KafkaCorr', cfg=cfg, workers=8, coverage=True, timeout=3000,
+         what='correlation-id lifecycle of the Kafka transport (tag pool, tag map, send queue, deadline, deferred '
+              'timeout_proc, late replies; KafkaCorrAbs in lock-step): ' + bound + ', every interleaving; the id of a '
+              'timed-out request stays reserved until the broker answers (_OnTimeout: pass)'),
+    dict(module='KafkaCorr', cfg='KafkaCorr_release.cfg', workers=2, expect_violation='NoViolation',
+         what='the design in which a client-side timeout returns the id to the pool: the next request takes it and '
+              'receives the late reply of the old one (counterexample, C15.replyMisdelivered)'),
+  ]
+
+
 def models(prop, tier):
   if tier == 'quick':
     return [
@@ -74,13 +104,13 @@ def models(prop, tier):
                 'metadata responses with <= 2 topics/brokers x <= 2 partitions'),
       dict(module='KafkaWireCheck', cfg='KafkaWireCheck_asis.cfg', workers=2, expect_violation='ImplAgrees',
            what='code-shaped _BuildHeader as of the snapshot (text client id packed with %ds): cannot be packed'),
-    ]
+    ] + _corr_models('KafkaCorr_q.cfg', '3 requests')
   return [
     dict(module='KafkaWireCheck', cfg='KafkaWireCheck_t.cfg', workers=12, timeout=3000,
          what='as quick with 5 topics (<= 2 bytes), 7 partitions, <= 3 payloads of <= 2 bytes, 5 correlation ids'),
     dict(module='KafkaWireCheck', cfg='KafkaWireCheck_asis.cfg', workers=2, expect_violation='ImplAgrees',
          what='code-shaped _BuildHeader as of the snapshot: cannot be packed'),
-  ]
+  ] + _corr_models('KafkaCorr_t.cfg', '4 requests')
 
 
 # ------------------------------------------------------------------ broker-side encoder (protocol guide)
@@ -247,6 +277,149 @@ def _retry_script(rng, i):
           'timeout': rng.choice([3, 5]), 'rnd': rng.randint(0, 1 << 30)}
 
 
+LATE_TIMEOUTS = [50, 100, 100, 200, 300]
+
+
+def _late_script(rng, i):
+  """One live connection, requests with their own deadlines, a broker that holds replies.  The script is a
+  list of ops interpreted by _run_late:
+    ['req', r, api, topic, partition, acks, payloads, T]   issue request r (api 0 produce / 3 metadata; T ms, 0: none)
+    ['adv', ms]             let virtual time pass (everything due runs)
+    ['reply', r, error]     the broker answers the wire request of r now (whether or not r has timed out)
+    ['dup', r, error]       ... a second time (only ever generated right after the first answer)
+    ['unknown', corr, error] a reply to no request
+    ['atdl', r, error, pre] the reply to r reaches the client at the very instant r's deadline timer is due:
+                            pre >= 0: the reply arrives, `pre` callbacks of the client run, then the timer
+                            fires, then the rest; pre < 0: the timer fires, -pre - 1 callbacks run, the reply arrives
+    ['run']                 quiesce at the current instant (replies not followed by it arrive in one segment)
+  """
+  ops = []
+  st = {'n': 0, 'now': 0, 'reqs': {}, 'last_reply': None}
+  topics = [_name(rng, 'ascii') or [116] for _ in range(3)]
+
+  def issue(T=None, api=None):
+    st['n'] += 1
+    r = st['n']
+    if api is None:
+      api = 3 if rng.random() < 0.2 else 0
+    if T is None:
+      T = rng.choice(LATE_TIMEOUTS + [0, 0, 1000])
+    marker = list(('r%d-' % r).encode()) + _bytes(rng, rng.choice([0, 1, 3, 8]))
+    payloads = [marker] + ([_bytes(rng, rng.choice([0, 2, 5]))] if rng.random() < 0.25 else [])
+    ops.append(['req', r, api, rng.choice(topics), rng.choice([0, 1, 2, 7, 255, 65536]), rng.choice([-1, 0, 1, 1, 2]),
+                payloads if api == 0 else [], T])
+    st['reqs'][r] = {'dl': st['now'] + T if T else None, 'ans': False}
+    st['last_reply'] = None
+    return r
+
+  def adv(ms):
+    ops.append(['adv', ms])
+    st['now'] += ms
+
+  def err():
+    return rng.choice([0, 0, 0, 0, 3, 6, 7])
+
+  def reply(r, run=True):
+    ops.append(['reply', r, err()])
+    st['reqs'][r]['ans'] = True
+    st['last_reply'] = r
+    if run:
+      ops.append(['run'])
+
+  def unanswered():
+    return [r for r, q in st['reqs'].items() if not q['ans']]
+
+  def timed_out():
+    return [r for r in unanswered() if st['reqs'][r]['dl'] is not None and st['reqs'][r]['dl'] < st['now']]
+
+  shape = i % 6
+  if shape in (0, 1):
+    # a request times out, further requests are issued, only then does the broker answer the old one
+    for _ in range(rng.choice([1, 1, 2])):
+      issue(T=rng.choice([50, 100, 200]), api=0 if shape == 0 else None)
+    if rng.random() < 0.4:
+      issue(T=0)
+    adv(rng.choice([210, 250, 400]))
+    for _ in range(rng.choice([1, 2, 3])):
+      issue(T=rng.choice([0, 0, 1000, 300]))
+      if rng.random() < 0.3:
+        adv(rng.choice([10, 30]))
+    late = timed_out()
+    rng.shuffle(late)
+    for r in late[:rng.choice([1, 2])]:
+      reply(r, run=rng.random() < 0.7)
+    ops.append(['run'])
+  elif shape == 2:
+    # the reply and the deadline fall on the same instant
+    a = issue(T=rng.choice([50, 100, 200]))
+    if rng.random() < 0.5:
+      issue(T=rng.choice([0, 1000]))
+    ops.append(['atdl', a, err(), rng.choice([0, 0, 1, 2, 3, -1, -1, -2, -3])])
+    st['reqs'][a]['ans'] = True
+    st['now'] = st['reqs'][a]['dl']
+    for _ in range(rng.choice([1, 2])):
+      issue()
+  elif shape == 3:
+    # a late reply followed at once by a duplicate of it, then new traffic
+    a = issue(T=rng.choice([50, 100]))
+    b = issue(T=rng.choice([0, 1000]))
+    adv(rng.choice([120, 250]))
+    reply(a)
+    ops.append(['dup', a, err()])
+    ops.append(['run'])
+    issue()
+    if rng.random() < 0.5:
+      reply(b)
+      ops.append(['dup', b, err()])
+      ops.append(['run'])
+  elif shape == 4:
+    # a stalled broker: a burst with staggered deadlines, everything answered at the end in one go
+    for _ in range(rng.choice([3, 4, 5])):
+      issue(T=rng.choice([50, 100, 200, 300, 0]))
+      adv(rng.choice([0, 10, 40, 90]))
+    adv(rng.choice([60, 150, 350]))
+    for _ in range(rng.choice([1, 2])):
+      issue(T=rng.choice([0, 1000]))
+    order = unanswered()
+    rng.shuffle(order)
+    for r in order:
+      reply(r, run=False)
+    ops.append(['run'])
+  # random continuation (shape 5: everything random)
+  for _ in range(rng.choice([4, 6, 9, 12]) if shape == 5 else rng.choice([2, 4, 6])):
+    k = rng.random()
+    un = unanswered()
+    if k < 0.3 and st['n'] < 9:
+      issue()
+    elif k < 0.5:
+      adv(rng.choice([10, 40, 60, 110, 260]))
+    elif k < 0.8 and un:
+      reply(rng.choice(un), run=rng.random() < 0.75)
+    elif k < 0.86 and un:
+      cand = [r for r in un if st['reqs'][r]['dl'] is not None and st['reqs'][r]['dl'] > st['now']]
+      if cand:
+        a = rng.choice(cand)
+        ops.append(['atdl', a, err(), rng.choice([0, 0, 1, 2, -1, -2])])
+        st['reqs'][a]['ans'] = True
+        st['now'] = st['reqs'][a]['dl']
+        st['last_reply'] = None
+    elif k < 0.92 and st['last_reply'] is not None:
+      ops.append(['dup', st['last_reply'], err()])
+      ops.append(['run'])
+    elif k < 0.97:
+      ops.append(['unknown', rng.choice([0, 1, 77777, (1 << 24) - 1, 900]), err()])
+      ops.append(['run'])
+  # the broker finally answers most of what is left, in any order
+  rest = unanswered()
+  rng.shuffle(rest)
+  for r in rest:
+    if rng.random() < 0.8:
+      reply(r, run=rng.random() < 0.6)
+  ops.append(['run'])
+  return {'mode': 'late', 'cls': 'late', 'ops': ops, 'tag0': rng.choice([1, 1, 1, 254, 65534, (1 << 24) - 40]),
+          'chunk': rng.choice([0, 0, 0, 1, 5])}
+
+
 def cases(prop, tier, seed):
   rng = random.Random(104729 * int(seed) + 15)
   mult = 1 if tier == 'quick' else 4       # thorough: 4x the traces, 3x the records per trace
@@ -283,6 +456,10 @@ def cases(prop, tier, seed):
     out.append(_route_script(rng))
   for c in range(60 * (1 if tier == 'quick' else 10)):
     out.append(_retry_script(rng, c))
+  # own generator: the scripts of the earlier classes do not depend on how many late scripts there are
+  lrng = random.Random(7919 * int(seed) + 1515)
+  for c in range(90 * (1 if tier == 'quick' else 10)):
+    out.append(_late_script(lrng, c))
   return out
 
 
@@ -368,6 +545,27 @@ def _produce_out(ret):
   return 'none', out
 
 
+def _metadata_out(ret):
+  """What the real decoder returned for a metadata response -> (raised, brokers, topics)."""
+  if ret is None:
+    return 'NoResult', [], []
+  if getattr(ret, 'error', None) is not None:
+    return type(ret.error).__name__, [], []
+  md = ret.return_value
+  brokers, topics = [], []
+  for b in md.brokers.values():
+    brokers.append({'id': int(b.nodeId), 'host': list(bytearray(b.host)), 'port': int(b.port)})
+  for name, parts in md.topics.items():
+    ps = []
+    for p in parts.values():
+      has = hasattr(p, 'replicas') and hasattr(p, 'isr')
+      ps.append({'id': int(p.partition_id), 'leader': int(p.leader), 'hasRepl': has,
+                 'replicas': [int(x) for x in p.replicas] if has else [],
+                 'isr': [int(x) for x in p.isr] if has else []})
+    topics.append({'name': list(bytearray(name)), 'parts': ps})
+  return 'none', brokers, topics
+
+
 def _run_direct(script, loop):
   from scales.compat import BytesIO
   from scales.constants import TransportHeaders
@@ -412,21 +610,8 @@ def _run_direct(script, loop):
       data = broker_metadata_response(rec['corr'], rec['brokers'], rec['topics'])
       e = {'e': 'MResp', 'bytes': list(bytearray(data)), 'raised': 'none', 'brokers': [], 'topics': []}
       try:
-        ret = proto.DeserializeMessage(BytesIO(data), MessageType.MetadataRequest)
-        if getattr(ret, 'error', None) is not None:
-          e['raised'] = type(ret.error).__name__
-        else:
-          md = ret.return_value
-          for b in md.brokers.values():
-            e['brokers'].append({'id': int(b.nodeId), 'host': list(bytearray(b.host)), 'port': int(b.port)})
-          for name, parts in md.topics.items():
-            ps = []
-            for p in parts.values():
-              has = hasattr(p, 'replicas') and hasattr(p, 'isr')
-              ps.append({'id': int(p.partition_id), 'leader': int(p.leader), 'hasRepl': has,
-                         'replicas': [int(x) for x in p.replicas] if has else [],
-                         'isr': [int(x) for x in p.isr] if has else []})
-            e['topics'].append({'name': list(bytearray(name)), 'parts': ps})
+        e['raised'], e['brokers'], e['topics'] = _metadata_out(
+          proto.DeserializeMessage(BytesIO(data), MessageType.MetadataRequest))
       except Exception as ex:
         e['raised'] = type(ex).__name__
       ev.append(e)
@@ -722,12 +907,235 @@ def _run_retry(script, loop):
               'errors': [repr(x[1:3])[:200] for x in loop.errors][:3]}
 
 
+def _run_late(script, loop):
+  """Late replies on one live connection: ClientTimeoutSink -> KafkaSerializerSink -> KafkaTransportSink over the
+  real ScalesSocket on the simulated network; the broker (KafkaPeer: own header reader, replies held until
+  released) answers when the script says so.  Recorded: LReq (the bytes the client wrote for the request: the
+  spec finds the correlation id in them), LReply (the bytes the broker encoded, for which wire request), LDone
+  (what the caller of a request was given), LEnd."""
+  import gevent
+  from harness.simgevent import simnet, peers
+  from harness.simgevent.vloop import EPOCH
+  from scales.constants import MessageProperties, SinkProperties
+  from scales.message import Deadline, MethodCallMessage
+  from scales.sink import ClientMessageSink, ClientMessageSinkStack, TimeoutSinkProvider
+  from scales.kafka.sink import KafkaEndpoint, KafkaSerializerSink, KafkaTransportSink
+
+  loop.settle()
+  net = simnet.SimNet(loop).install()
+  ev = []
+  stats = {'timeouts': 0, 'values': 0, 'late_replies': 0, 'late_after_new_request': 0, 'dups': 0, 'unknown': 0,
+           'at_deadline': 0, 'skipped_ops': 0, 'id_reuse': 0}
+
+  def ms():
+    return int(round((loop.now() - EPOCH) * 1000))
+
+  class Broker(peers.KafkaPeer):
+    """KafkaPeer + the order of arrival; nothing is answered until the script says so."""
+    def __init__(self, net_):
+      peers.KafkaPeer.__init__(self, net_)
+      self.arrivals = 0
+
+    def on_frame(self, conn, frame):
+      self.arrivals += 1
+      peers.KafkaPeer.on_frame(self, conn, frame)
+
+  peer = Broker(net)
+  net.peer_factory = lambda c: peer
+  chunk = script.get('chunk', 0)
+
+  def on_connect_start(conn):
+    if chunk:
+      conn.chunk = chunk          # the client's reads return at most `chunk` bytes (TCP segmentation)
+  net.on_connect_start = on_connect_start
+  written = []                    # buffers the client wrote, in order
+
+  def on_net(e):
+    if e['kind'] == 'send':
+      written.append(e['data'])
+  net.listeners.append(on_net)
+
+  tprov = KafkaTransportSink.Builder()
+  sprov = KafkaSerializerSink.Builder()
+  sprov.next_provider = tprov
+  top_prov = TimeoutSinkProvider()
+  top_prov.next_provider = sprov
+  top = top_prov.CreateSink({SinkProperties.Endpoint: KafkaEndpoint('broker', 9092, 0), SinkProperties.Label: 'svc'})
+  open_ar = top.Open()
+  loop.run_until_idle()
+  if not (open_ar.ready() and open_ar.successful()):
+    raise RuntimeError('harness: kafka transport did not open over the simulated network: %r' % (open_ar.exception,))
+  transport = top
+  while not isinstance(transport, KafkaTransportSink):
+    transport = transport.next_sink
+  cid = _client_id(transport)
+  try:                                      # optional knob: where the tag pool starts handing out ids
+    transport._tag_pool._next = script.get('tag0', 1)
+  except AttributeError:
+    pass
+
+  reqs = {}            # r -> dict(api, topic, partition, pending (peer's record of its frame), deadline, done)
+  nreq = [0]
+  replies = [0]
+
+  class Terminal(ClientMessageSink):
+    def AsyncProcessRequest(self, *a):
+      raise NotImplementedError()
+
+    def AsyncProcessResponse(self, sink_stack, context, stream, msg):
+      r = context
+      q = reqs[r]
+      e = {'e': 'LDone', 'r': r, 'api': q['api'], 'raised': 'none', 'out': [], 'brokers': [], 'topics': [], 't': ms()}
+      if q['api'] == 0:
+        e['raised'], e['out'] = _produce_out(msg)
+      else:
+        e['raised'], e['brokers'], e['topics'] = _metadata_out(msg)
+      q['done'].append(e['raised'])
+      kind = 'timeouts' if e['raised'] == 'TimeoutError' else 'values' if e['raised'] == 'none' else 'other_errors'
+      stats[kind] = stats.get(kind, 0) + 1
+      ev.append(e)
+  terminal = Terminal()
+
+  def issue(r, api, topic, partition, acks, payloads, T):
+    if api == 0:
+      msg = _put_msg({'topic': topic, 'partition': partition, 'acks': acks, 'payloads': payloads, 'acks_kw': r % 2 == 0})
+    else:
+      msg = MethodCallMessage(None, '__metadata', [], {})
+      msg.properties[MessageProperties.Endpoint] = None
+    deadline = None
+    if T:
+      deadline = loop.now() + T / 1000.0
+      msg.properties[Deadline.KEY] = deadline
+    stack = ClientMessageSinkStack()
+    stack.Push(terminal, r)
+    e = {'e': 'LReq', 'r': r, 'api': api, 'topic': topic, 'partition': partition, 'acks': acks, 'payloads': payloads,
+         'T': T, 'corr': -1, 'cid': cid, 'frame': [], 'sent': 0, 'braised': 'none', 'hraised': 'none', 't': ms()}
+    reqs[r] = {'api': api, 'topic': topic, 'partition': partition, 'pending': None, 'deadline': deadline, 'done': [],
+               'answered_at_nreq': None}
+    nreq[0] += 1
+    ev.append(e)
+    w0, p0 = len(written), len(peer.requests)
+    box = {}
+
+    def call():
+      try:
+        top.AsyncProcessRequest(stack, msg, None, {})
+      except Exception as ex:           # the serializer reports its failures on the stack: this is the header builder
+        box['exc'] = type(ex).__name__
+    gevent.spawn(call)
+    loop.run_until_idle()
+    if 'exc' in box:
+      e['hraised'] = box['exc']
+    bufs = written[w0:]
+    if bufs:
+      frame = b''.join(bufs)            # everything the client wrote while the request was being issued
+      e['frame'] = list(bytearray(frame))
+      e['sent'] = 1
+      if len(frame) >= 12:
+        e['corr'] = broker_read_correlation_id(frame)
+      new = peer.requests[p0:]
+      if len(new) == 1:
+        reqs[r]['pending'] = new[0]
+        if any(q['pending'] is not None and q is not reqs[r] and not q['pending'].answered
+               and q['pending'].tag == new[0].tag for q in reqs.values()):
+          stats['id_reuse'] += 1
+    elif reqs[r]['done'] and reqs[r]['done'][0] not in ('none', 'TimeoutError'):
+      e['braised'] = reqs[r]['done'][0]
+
+  def encode_reply(api, corr, topic, partition, error):
+    replies[0] += 1
+    k = replies[0]
+    if api == 0:
+      return broker_produce_response(corr, [[topic, [[partition, error, 1000 + 97 * k]]]])
+    return broker_metadata_response(
+      corr, [[k, list(('b%d' % k).encode()), 9092 + k]],
+      [[0, topic, [[0, partition & 0xffff, k, [k], [k]]]]])
+
+  def conn_of(p):
+    return p.conn if (p is not None and not p.conn.closed) else None
+
+  def send_reply(r, error, dup=False):
+    q = reqs.get(r)
+    p = q['pending'] if q else None
+    if conn_of(p) is None or (p.answered != dup):
+      stats['skipped_ops'] += 1
+      return False
+    if dup and q['answered_at_nreq'] != nreq[0]:
+      stats['skipped_ops'] += 1       # a newer request may legitimately own the id by now
+      return False
+    data = encode_reply(q['api'], p.tag, q['topic'], q['partition'], error)
+    ev.append({'e': 'LReply', 'w': r, 'api': q['api'], 'bytes': list(bytearray(data)), 't': ms()})
+    if dup:
+      peer.send_frame(p.conn, -2, p.tag, data[4:])
+      stats['dups'] += 1
+    else:
+      peer.release(p, payload=data[4:])
+      q['answered_at_nreq'] = nreq[0]
+      if q['done']:
+        stats['late_replies'] += 1
+        if any(x['pending'] is not None and x['pending'].n > p.n for x in reqs.values()):
+          stats['late_after_new_request'] += 1
+    return True
+
+  for op in script['ops']:
+    k = op[0]
+    if k == 'req':
+      issue(*op[1:])
+    elif k == 'adv':
+      loop.run_for(op[1] / 1000.0)
+    elif k == 'run':
+      loop.run_until_idle()
+    elif k == 'reply':
+      send_reply(op[1], op[2])
+    elif k == 'dup':
+      send_reply(op[1], op[2], dup=True)
+    elif k == 'unknown':
+      live = [c for c in net.conns if c.connected and not c.closed]
+      if not live or any(p.tag == op[1] for p in peer.unanswered()):
+        stats['skipped_ops'] += 1
+        continue
+      data = encode_reply(0, op[1], [120], 0, op[2])
+      ev.append({'e': 'LReply', 'w': 0, 'api': 0, 'bytes': list(bytearray(data)), 't': ms()})
+      peer.send_frame(live[-1], -2, op[1], data[4:])
+      stats['unknown'] += 1
+    elif k == 'atdl':
+      q = reqs.get(op[1])
+      if q is None or q['deadline'] is None or q['done'] or q['deadline'] <= loop.now():
+        send_reply(op[1], op[2])
+        loop.run_until_idle()
+        continue
+      loop.run_until(q['deadline'] - 0.004)
+      nxt = loop.next_timer_at()
+      if nxt is not None and nxt <= q['deadline'] + 0.006:
+        loop.advance_to(nxt)               # the clock stands at the instant the deadline timer is due; nothing ran
+        stats['at_deadline'] += 1
+      if op[3] < 0:                        # the timer first, |pre| - 1 callbacks, then the reply arrives
+        loop.step_timer()
+        for _ in range(-op[3] - 1):
+          loop.step_callback()
+        send_reply(op[1], op[2])
+      elif send_reply(op[1], op[2]):       # the reply arrives, `pre` callbacks run, then the timer fires
+        for _ in range(op[3]):
+          loop.step_callback()
+        loop.step_timer()
+      loop.run_until_idle()
+  loop.run_until_idle()
+  # let every deadline pass, then quiesce
+  loop.run_for(5.0)
+  loop.settle()
+  ev.append({'e': 'LEnd', 'unread': sum(len(c.inbox) for c in net.conns), 't': ms()})
+  return ev, dict(stats, mode='late', requests=len(reqs), frames=peer.arrivals,
+                  errors=[repr(x[1:3])[:200] for x in loop.errors][:3])
+
+
 def run_case(script):
   loop = common.boot()
   if script['mode'] == 'route':
     ev, meta = _run_route(script, loop)
   elif script['mode'] == 'retry':
     ev, meta = _run_retry(script, loop)
+  elif script['mode'] == 'late':
+    ev, meta = _run_late(script, loop)
   else:
     ev, meta = _run_direct(script, loop)
   return {'cfg': {'mode': script['mode'], 'cls': script.get('cls', '')}, 'ev': ev, 'meta': meta}
@@ -745,7 +1153,7 @@ def witness(prop, t, consumed, clause):
     return {}
   e = t['ev'][consumed]
   w = {'kind': e['e']}
-  if e['e'] in ('Req', 'ReqR', 'Hdr'):
+  if e['e'] in ('Req', 'ReqR', 'Hdr', 'LReq'):
     w['header_raised'] = e['hraised']
   return w
 
@@ -758,11 +1166,19 @@ def extra_coverage(prop, tier, traces):
   for t in traces:
     for e in t['ev']:
       kinds[e['e']] = kinds.get(e['e'], 0) + 1
-      if e['e'] in ('Req', 'ReqR'):
+      if e['e'] in ('Req', 'ReqR', 'LReq'):
         corr.add(e['corr'])
         for p in e['payloads']:
           payload_bytes += len(p)
           max_payload = max(max_payload, len(p))
-  return {'records': sum(kinds.values()), 'records_by_kind': kinds,
+  late = {}
+  for t in traces:
+    m = t.get('meta', {})
+    if m.get('mode') == 'late':
+      late['scenarios'] = late.get('scenarios', 0) + 1
+      for k in ('requests', 'timeouts', 'values', 'late_replies', 'late_after_new_request', 'dups', 'unknown',
+                'at_deadline', 'skipped_ops', 'other_errors'):
+        late[k] = late.get(k, 0) + int(m.get(k, 0))
+  return {'records': sum(kinds.values()), 'records_by_kind': kinds, 'late_reply_mode': late,
           'retransmitted_requests_judged': sum(t.get('meta', {}).get('retransmissions', 0) for t in traces), 'payload_bytes_crc_checked': payload_bytes,
           'max_payload': max_payload, 'distinct_correlation_ids': len(corr)}
